@@ -1,8 +1,8 @@
 #!/bin/bash
 # Dev tool: negative controls — behaviour-preserving changes (tools/mutants/benign.txt) must leave every check silent.
-TIER=${1:-quick}
-V=$(cd "$(dirname "$0")/.." && pwd)
-grep -v '^#' "$V/tools/mutants/benign.txt" | while IFS='|' read -r props name mut; do
+TIER=${1:-quick}; FILTER=${2:-.}
+V=$(cd "$(dirname "$0")/.." && pwd); cd "$V"
+grep -v "^#" "$V/tools/mutants/benign.txt" | grep -E "$FILTER" | while IFS='|' read -r props name mut; do
   out=$("$V/tools/mut.sh" "$mut" "$props" "$TIER" 2>&1)
   res=$(echo "$out" | grep -oE "^== C[0-9]+ [a-z]+ seed=[0-9]+ exit=[0-9]+" | sed -E 's/== (C[0-9]+) .*exit=([0-9]+)/\1:\2/' | tr '\n' ' ')
   case "$out" in *"DID NOT CHANGE"*) res="NOCHANGE";; *"DOES NOT BUILD"*) res="NOBUILD";; esac
